@@ -121,6 +121,11 @@ def cases(tier, rng):
     for ch in list(range(-2, 19)) + [None]:
         yield Case("note.new", ["C", 4, None, ch], "channel")
     yield Case("note.new", ["C", 4, 200, 99], "both-bad")
+    for v in (-1, 0, 127, 128, 300):
+        yield Case("note.new", ["C-5", 4, v, None], "velocity")
+        yield Case("note.new", ["Bb-2", 9, v, None], "velocity")
+    for ch in (-1, 0, 15, 16, 99):
+        yield Case("note.new", ["C-5", 4, None, ch], "channel")
     near = [nm + ch for nm in ("C", "Bb", "F##") for ch in ("\n", "\r", " ", "\t", "\x00", "\n\n", "\u2028")] + \
            [ch + nm for nm in ("C", "Bb") for ch in ("\n", " ")] + ["C\n#", "B\nb", "C\n-4"]
     for bad in ["H", "c", "C-x", "C-4-5", "-4", "C#x", "Cis", "1", " C"] + near:
